@@ -170,9 +170,6 @@ func buildStream(rng *rand.Rand, cfg fc.Cfg, class int, k int) (s stream, ok boo
 		if f == at {
 			n = sp
 		}
-		if sp >= 16384 && f != at && rng.Intn(2) == 0 {
-			n = clamp(n, lo, hi)
-		}
 		bodies[f] = n
 		if t := hdrLen(n) + n; cfg.Kind == fc.Varint {
 			if n > maxTotal {
@@ -658,7 +655,10 @@ func roundTrip(c *core.Ctx, id string, r int) {
 		case 1:
 			n = hi - rng.Intn(2) // capacity edge (or large)
 		}
-		n = clamp(n+lo*boolInt(n < lo), lo, hi)
+		if n < lo {
+			n += lo
+		}
+		n = clamp(n, lo, hi)
 		if e.Kind == fc.Fixed {
 			n = e.Fixed
 		}
@@ -715,11 +715,4 @@ func roundTrip(c *core.Ctx, id string, r int) {
 	c.Count("round_trip_frames", int64(k))
 	c.Sig("rt", e.Shape(), fc.LenClass(maxLen), plan.Kind, plan.Term, s.maxMode)
 	judgeDecode(c, id, "round-trip", s, plan, res)
-}
-
-func boolInt(b bool) int {
-	if b {
-		return 1
-	}
-	return 0
 }
